@@ -1,7 +1,9 @@
 (* C18: abstract execution (nada_dsl.audit) of a surface program, as far as the signature is
    concerned: the classes the abstract operators give (the bodies regenerated from audit/abstract.py,
    evaluated by AbsRules.arule2 / arule_ifelse) and the three aggregators.  Programs outside the
-   common subset of the two libraries give None, as does a program on which the audit classes raise. *)
+   common subset of the two libraries give None, as does a program on which the audit classes raise.
+   Not modelled (answered None): == / != on two abstract booleans, which the audit classes do not define and
+   Python answers by object identity with a plain bool. *)
 From Coq Require Import ZArith List String Bool.
 From NadaV.PyMini Require Import PyMini.
 From NadaV.Model Require Import Rules Surface AbsRules.
